@@ -13,6 +13,7 @@ open Qryn Qryn.Sql
 /-- text of the purely textual expressions the value switches build (same shape as `renderExpr`, on `String`) -/
 def exprText : Expr → String
   | .raw s => s
+  | .int i => toString i
   | .divOp x y => exprText x ++ " / " ++ exprText y
   | .mulOp x y => exprText x ++ " * " ++ exprText y
   | .call fn [] => fn ++ "()"
@@ -36,9 +37,11 @@ def allCmpOps : List CmpOp := [.gt, .lt, .ge, .le, .eq, .neq]
 
 /-- the seconds literal stands where the Go format has `%f` -/
 def secHole : Expr := .raw "%f"
+/-- the range in nanoseconds stands where the Go format has `%d` -/
+def nsHole : Expr := .raw "%d"
 
-def lraOpsModel : List (String × String) := allRangeFns.map (fun f => (f.name, exprText (lraValue f secHole)))
-def unwrapOpsModel : List (String × String) := allUnwrapFns.map (fun f => (f.name, exprText (unwrapValue f secHole)))
+def lraOpsModel : List (String × String) := allRangeFns.map (fun f => (f.name, exprText (lraValue f nsHole)))
+def unwrapOpsModel : List (String × String) := allUnwrapFns.map (fun f => (f.name, exprText (unwrapValue f nsHole)))
 def aggOpsModel : List (String × String) := allAggFns.map (fun f => (f.name, exprText (aggValue f)))
 def shortcutOpsModel : List (String × String) :=
   [RangeFn.rate, RangeFn.countOverTime].map (fun f => (f.name, exprText (shortcutValue f secHole)))
@@ -53,7 +56,7 @@ def cmpOpsModel : List (String × String) := allCmpOps.map (fun op => (cmpName o
 
 /-- every expression the tables are made of -/
 def tableExprs : List Expr :=
-  allRangeFns.map (fun f => lraValue f secHole) ++ allUnwrapFns.map (fun f => unwrapValue f secHole) ++
+  allRangeFns.map (fun f => lraValue f nsHole) ++ allUnwrapFns.map (fun f => unwrapValue f nsHole) ++
   allAggFns.map aggValue ++ [shortcutValue .rate secHole, shortcutValue .countOverTime secHole]
 
 def tablesRenderAsText : Bool := tableExprs.all (fun e => renderExpr e == b (exprText e))
